@@ -140,7 +140,7 @@ def run(chk: harness.Check):
         "receive matching severities; (D4) in RecipeCollector::parse_events the Event::Error arm calls SourceReport::retain with a Stage::Parse predicate and "
         "returns PassResult::new(None, ..), every other PassResult::new carries Some(content); (D5) PassResult::is_valid is has_output() ∧ ¬has_errors(); "
         "(D6) every Number::Fraction built in the parser takes its denominator from frac() or under the `== 0` rejection; (D7) the out-of-range diagnostic of an intermediate reference is guarded by the "
-        "n-th element of the is_step-filtered enumeration of the current section / a comparison with content.sections.len() (shared with C06.D6); (D8) Text::is_text_empty, on which the empty-name/unit/key/value checks hang, examines every fragment; (D9) the primary label stays labels[0]: constructors start the list with it and it is only ever pushed to; (D10) the sets of modifier flags tested by the forbidden-modifier checks are the reviewed sets. Weak: which condition triggers a "
+        "n-th element of the is_step-filtered enumeration of the current section / a comparison with content.sections.len() (shared with C06.D6); (D8) Text::is_text_empty, on which the empty-name/unit/key/value checks hang, examines every fragment; (D9) the primary label stays labels[0]: constructors start the list with it and it is only ever pushed to; (D10) the sets of modifier flags tested by the forbidden-modifier checks are the reviewed sets; (D11) the front-matter mapping that is checked is the deserialiser's result on every path and every exit after deserialising processes it or reports. Weak: which condition triggers a "
         "diagnostic and where its labels point are not decided.")
     chk.trusted = ["rustc MIR", "tables/diagnostics.toml (reviewed catalogue; message texts are listed for the reader and never compared)"]
     cons = constructions(F)
@@ -182,6 +182,7 @@ def run(chk: harness.Check):
     d8_empty_predicate(chk, F)
     d9_primary_label(chk, F)
     d10_modifier_sets(chk, F)
+    d11_frontmatter_malformed(chk, F)
 
 
 # reviewed sets of modifier flags that a check tests for (function suffix, method) -> set; from the documented rules:
@@ -190,6 +191,45 @@ MODIFIER_SETS = {
     ("RecipeCollector::ingredient", "intersects"): {"RECIPE", "HIDDEN", "NEW"},
     ("RecipeCollector::resolve_reference", "contains"): {"NEW", "REF"},
 }
+
+
+def d11_frontmatter_malformed(chk, F):
+    """'malformed front matter produces a diagnostic': in process_frontmatter the mapping whose entries are checked is, on every
+    path, the one the YAML deserialiser returned (never a fresh/empty mapping put in its place), and every path from the
+    deserialisation to a return either processes that mapping or reports to the diagnostics context."""
+    from cfgq import must_pass
+    R = "C07.D11-frontmatter-malformed"
+    fs = [g for g in F.find("event_consumer::RecipeCollector::process_frontmatter") if not g.is_closure()]
+    if len(fs) != 1:
+        chk.fail("anchor-missing", "process_frontmatter", "", "anchor-missing: RecipeCollector::process_frontmatter not found")
+        return
+    f = fs[0]
+    des = [(b, t) for b, t in f.calls() if re.search(r"serde_yaml::(de::)?from_(str|slice|reader)$", callee_key(t) or "")]
+    its = calls_to(f, "serde_yaml::Mapping::iter") + calls_to(f, "serde_yaml::Mapping::iter_mut") + calls_to(f, "IntoIterator>::into_iter")
+    its = [(b, t) for b, t in its if any(l.endswith(("from_str", "from_slice", "from_reader", "Mapping::new", "Default>::default")) or "Mapping" in l
+                                          for l in leaves(arg_expr(f, t, 0)))
+           and not ((callee_key(t) or "").endswith("into_iter") and any(l.endswith(("Mapping::iter", "Mapping::iter_mut")) for l in leaves(arg_expr(f, t, 0))))]
+    chk.floor(R, "YAML deserialisations in process_frontmatter", len(des), 1, f"{f.file}:{f.line}")
+    chk.floor(R, "iterations over the front matter mapping", len(its), 1, f"{f.file}:{f.line}")
+    if not des or not its:
+        return
+    for b, t in its:
+        e = arg_expr(f, t, 0)
+        calls = {n[1] for n in walk(e) if n[0] == "call"}
+        fresh = sorted(c for c in calls if c.endswith(("Mapping::new", "Mapping::with_capacity", "Default>::default")))
+        ok = any(re.search(r"from_(str|slice|reader)$", c) for c in calls) and not fresh
+        chk.expect(ok, R, "process_frontmatter|mapping-lineage", f.where(b),
+                   f"the mapping whose entries are checked can be {', '.join(c.rsplit('::', 2)[-2] + '::' + c.rsplit('::', 1)[-1] for c in fresh) or 'something other than the deserialised document'}: "
+                   "a front matter that is not a mapping would be treated as empty without a diagnostic",
+                   sample=f"{f.where(b)}: the iterated mapping is the deserialiser's Ok value on every path")
+    sinks = [b for suf in ("SourceReport::error", "SourceReport::warn", "SourceReport::push") for b, _ in calls_to(f, suf)]
+    K = [b for b, _ in its] + sinks
+    for b, t in des:
+        nxt = t.get("target")
+        ok = nxt is not None and must_pass(f, [nxt], K, list(f.returns()))
+        chk.expect(ok, R, "process_frontmatter|no-silent-exit", f.where(b),
+                   "a path leaves process_frontmatter after the YAML deserialisation without processing the mapping and without reporting a diagnostic",
+                   sample=f"{f.where(b)}: every exit after from_str processes the mapping or reports")
 
 
 def modifier_set_calls(F, fn_suffix, method):
